@@ -6,7 +6,7 @@ PreB == {-1, 0, 1, 2, 3}
 PreC == {0, 1, 2}
 Terminal == pc = "idle" /\ nextId > MaxRec
 Params == [base |-> Base, count |-> Count, roller |-> Roller, append |-> AppendMode, trig |-> Trig, limit |-> Limit,
-           buf |-> IF MaxEncFail = 0 THEN 0 ELSE BufFloor, gz |-> Gz]
+           buf |-> IF MaxEncFail = 0 /\ ~ActFull THEN 0 ELSE BufFloor, gz |-> Gz, full |-> ActFull]
 Emit == (Hist /\ Terminal) => PrintT(<<"REPLAY", ToJson([params |-> Params, ops |-> hist])>>)
 \* simulation mode: print the history when a behaviour reaches its end
 =============================================================================
